@@ -34,7 +34,7 @@ MSG_LINES = ["SPECIFICATION FairSpec", "INVARIANTS QuiesceOK", "PROPERTIES StepO
 MSG_GEN_LINES = ["SPECIFICATION Spec", "VIEW View", "ACTION_CONSTRAINT Emit", "CHECK_DEADLOCK FALSE"]
 
 SMALL = dict(MC_BASE, Names={"a", "b", "L"}, MaxList=2, Pays="<- PaysDef")
-BIG = dict(MC_BASE, Names={"a", "b", "c", "L"}, MaxList=3, Pays="<- PaysDef3")
+MID = dict(MC_BASE, Names={"a", "b", "c", "L"}, MaxList=3, Pays="<- PaysDef")
 HUGE = dict(MC_BASE, Names={"a", "b", "c", "L", "M"}, Long={"L", "M"}, MaxList=3, Pays="<- PaysDef3")
 
 # model name -> real protocol name; "L"/"M" need a frame of >= 128 bytes (2-byte length prefix)
@@ -125,7 +125,7 @@ def violations_from(rejects, jobs, what):
 def check(ctx):
     quick = ctx.quick()
     mc = []
-    mc.append(run_mc(ctx, "big", BIG if quick else HUGE, MC_LINES))
+    mc.append(run_mc(ctx, "mid" if quick else "huge", MID if quick else HUGE, MC_LINES))
     mc.append(run_mc(ctx, "live", SMALL, LIVE_LINES, workers=6))
     mc.append(run_mc(ctx, "msg", {"Names": {"a", "b", "c", "L"}, "MaxList": 3 if quick else 4, "Record": False, "Mut": "none"},
                      MSG_LINES, spec="MultistreamMsg.tla", workers=4))
@@ -139,7 +139,7 @@ def check(ctx):
     write_jsonl(ctx.path("jobs.jsonl"), jobs)
     del behs, jobs
     build_s = cargo_build(ctx, ["mss"])
-    nrand, nmsg = (200000, 30000) if quick else (3000000, 300000)
+    nrand, nmsg = (150000, 30000) if quick else (3000000, 300000)
     summ, _ = harness(ctx, "mss", ["--jobs", ctx.path("jobs.jsonl"), "--random", nrand, "--random-msg", nmsg, "--seed", ctx.seed,
                                    "--threads", min(10, int(os.environ.get("VERIF_WORKERS", "12"))), "--out", ctx.path("trace.ndjson"), "--jobs-out", ctx.path("jobs_out.jsonl")])
     brief = {k: v for k, v in summ.items() if k != "drift_examples"}
